@@ -297,7 +297,15 @@ func traffic(e *env.Env, rng *chain.Rng) {
 	} else {
 		e.Swap(u, tok, "rowan", amt, big.NewInt(0))
 	}
-	e.AddLiquidity(u, tok, amt, amt)
+	// one-sided adds too (a pool whose native side a provider distribution emptied takes them through the empty-pool branch)
+	switch rng.Intn(4) {
+	case 0:
+		e.AddLiquidity(u, tok, big.NewInt(0), amt)
+	case 1:
+		e.AddLiquidity(u, tok, amt, big.NewInt(0))
+	default:
+		e.AddLiquidity(u, tok, amt, amt)
+	}
 }
 
 func decPtr(s string) *sdk.Dec {
@@ -328,6 +336,10 @@ func buildPolicyMsg(e *env.Env, rng *chain.Rng, kind int) (string, sdk.Msg, map[
 	case 102: // corpus, finding F-7: a provider-distribution period with block rate 1 (margin-enabled pools)
 		p := &clptypes.ProviderDistributionPeriod{DistributionPeriodStartBlock: uint64(h + 1), DistributionPeriodEndBlock: uint64(h + 3), DistributionPeriodBlockRate: sdk.OneDec(), DistributionPeriodMod: 1}
 		f["start"], f["end"], f["mod"], f["rate"] = h+1, h+3, 1, "1"
+		return "MsgAddProviderDistributionPeriodRequest", &clptypes.MsgAddProviderDistributionPeriodRequest{Signer: adm, DistributionPeriods: []*clptypes.ProviderDistributionPeriod{p}}, f
+	case 103: // corpus, finding F-25: block rate 1 again (no margin), followed by an external-only add into the emptied pool
+		p := &clptypes.ProviderDistributionPeriod{DistributionPeriodStartBlock: uint64(h + 1), DistributionPeriodEndBlock: uint64(h + 6), DistributionPeriodBlockRate: sdk.OneDec(), DistributionPeriodMod: 1}
+		f["start"], f["end"], f["mod"], f["rate"], f["then"] = h+1, h+6, 1, "1", "two blocks later user 1 adds 1 rowan base unit + 1e18 ceth to the ceth pool and removes 5000 basis points of it"
 		return "MsgAddProviderDistributionPeriodRequest", &clptypes.MsgAddProviderDistributionPeriodRequest{Signer: adm, DistributionPeriods: []*clptypes.ProviderDistributionPeriod{p}}, f
 	case 0: // reward period
 		p := &clptypes.RewardPeriod{RewardPeriodId: "rp1"}
@@ -491,8 +503,8 @@ func C10(c Ctx) *report.Report {
 		coins := sdk.NewCoins(sdk.NewCoin("ceth", sdk.NewIntFromBigInt(chain.E(20))))
 		e.Tx(e.Users[2], clptypes.NewMsgAddLiquidityToRewardsBucketRequest(e.Users[2].Addr.String(), coins))
 		kind := rng.Intn(8)
-		if i < 3 {
-			kind = 100 + i // corpus first: the recorded findings F-15, F-16 and F-7
+		if i < 4 {
+			kind = 100 + i // corpus first: the recorded findings F-15, F-16, F-7 and F-25
 		}
 		cs := c10Case{ID: id}
 		// a third of the worlds have both pools enabled for margin trading: the margin begin blocker then recomputes the
@@ -523,6 +535,29 @@ func C10(c Ctx) *report.Report {
 			rep.CaseIndex[fmt.Sprint(cid)] = map[string]interface{}{"message": name, "fields": fields, "accepted": cs.Accepted, "log": cs.Log}
 		}
 		rep.Count(fmt.Sprintf("admin.%s.%s", name, map[bool]string{true: "accepted", false: "rejected"}[cs.Accepted]))
+		if cs.Accepted && kind == 103 {
+			// scripted traffic: let the distribution empty the native sides, then a provider adds the external token only
+			okBlocks := true
+			for b := 0; b < 2 && okBlocks; b++ {
+				okBlocks = !e.EndBlock()
+				if okBlocks {
+					e.Commit()
+					okBlocks = !e.BeginBlock()
+				}
+			}
+			if okBlocks {
+				// the native side is empty now: an add of 1 base unit of rowan takes the empty-pool branch and overwrites the pool's
+				// units with 1 (finding F-14); removing half of that one unit in the same block leaves the pool with 0 units while
+				// the first provider still holds its own
+				mustOK(e.UpdateRewardsParams(0, 0, 0, "", false), "no liquidity-removal lock period")
+				r1 := e.AddLiquidity(e.Users[1], "ceth", big.NewInt(1), chain.E(18))
+				r2 := e.RemoveLiquidity(e.Users[1], "ceth", 5000, 0)
+				cs.Fields["add_code"], cs.Fields["remove_code"], cs.Fields["remove_log"] = r1.Code, r2.Code, trunc(r2.Log, 160)
+				if p, err := e.App.ClpKeeper.GetPool(e.Ctx(), "ceth"); err == nil {
+					cs.Fields["pool_units_after"] = p.PoolUnits.String()
+				}
+			}
+		}
 		if cs.Accepted {
 			cs.Blocks, cs.Panic, cs.PanicAt = runBlocks(e, rng, 9, pc, rep, map[string]interface{}{"message": name, "fields": fields})
 			if cs.Panic != "" {
